@@ -89,6 +89,12 @@ CHECKS["C05"] = ("exploration",
     "Military-time years excluded for month-name notations as the property states; dd.mm.yy = 20yy.",
     "DESIGN.md 4 (C05)")
 
+CHECKS["C06"] = ("exploration",
+    "Exhaustive enumeration of 1440 minutes x frozen clock notations (latent off) against the written hour/minute; spoken and hour-in-part-of-day forms enumerated; latent-on cases over a boundary set of reference times per minute against a 'first occurrence strictly after the reference minute' reference model",
+    "The latent-off product minutes x digit notations is enumerated completely in both tiers (no sampling), so a notation that drops or shifts a field for any minute is found; latent anchoring is checked on both sides of the requested minute and across day/month/year/leap-day roll-overs.",
+    "Notations with a competing reading by the library's own patterns are listed in the evidence assumptions and not asserted.",
+    "DESIGN.md 4 (C06)")
+
 NOT_YET = "check not built yet in this round (see DESIGN.md section 4 for the planned generated-input check)"
 
 
